@@ -87,8 +87,8 @@ func verifStub_os_File_ReadAt(f *os.File, p []byte, off int64) (int, error) {
 func verifStub_os_File_Seek(f *os.File, off int64, whence int) (int64, error) {
 	return verifHandle(f).backing.Seek(off, whence)
 }
-func verifStub_os_File_Name(f *os.File) string { return "image.iso" }
-func verifStub_os_File_Close(f *os.File) error { return nil }
+func verifStub_os_File_Name(f *os.File) string               { return "image.iso" }
+func verifStub_os_File_Close(f *os.File) error               { return nil }
 func verifStub_os_File_Stat(f *os.File) (os.FileInfo, error) { return verifHandle(f).backing.Stat() }
 
 // ---- formatted output ----
@@ -110,7 +110,9 @@ func verifStub_fmt_Fprintf(w io.Writer, format string, a ...any) (int, error) {
 
 // ---- OS file system ----
 
-func verifStub_afero_OsFs_Open(o afero.OsFs, name string) (afero.File, error) { return verifOS.tree.Open(name) }
+func verifStub_afero_OsFs_Open(o afero.OsFs, name string) (afero.File, error) {
+	return verifOS.tree.Open(name)
+}
 func verifStub_afero_OsFs_Stat(o afero.OsFs, name string) (os.FileInfo, error) {
 	return verifOS.tree.Stat(name)
 }
@@ -241,7 +243,9 @@ type verifCipherMode interface {
 	CryptBlocks(dst, src []byte)
 }
 
-func verifStub_cipher_NewCBCDecrypter(b verifCipherBlock, iv []byte) verifCipherMode { return verifNullCBC{} }
+func verifStub_cipher_NewCBCDecrypter(b verifCipherBlock, iv []byte) verifCipherMode {
+	return verifNullCBC{}
+}
 
 type verifRecordingCBC struct{ verifNullCBC }
 
